@@ -442,6 +442,14 @@ def check(ctx):
             if sh is not None:
                 D.check_call_signature(ctx, 'R2-move-runs-as-a-field', d, sh, layout, d.where, d.label)
     check_loop_generators_uniform(ctx)
+    # Round 5: (k) 'begins' is the start of the data the caller passed: Packet.unpack hands the
+    # drivers that data and that offset unchanged (C12 Packet.unpack language); (l) a positioning
+    # pseudo-field runs its own pack / unpack -- it never joins a struct block with a pad code,
+    # which would write zero bytes where the fill byte belongs (C03-d'')
+    from .c12 import check_packet_unpack
+    check_packet_unpack(ctx, 'R8-begins-is-the-data-start')
+    from .c03 import check_struct_code_owners
+    check_struct_code_owners(ctx, rule='R2-move-runs-as-a-field')
     # skipped bytes become holes only if every insert -- an empty chunk included -- is recorded
     # and moves the cursor (C11 clauses 1, 2); the fill of holes is C11 clause 5
     from .c11 import check as c11_check
